@@ -130,10 +130,8 @@ Proof.
       assert (Hf : first_of (store l) <= lo).
       { unfold ll_first, abs in H1. rewrite Hnone in H1. cbn [ll_base] in H1.
         pose proof (first_pos _ Hs). lia. }
-      assert (Hne : entries (store l) <> []).
-      { intros Hnil. rewrite (entries_nil_next _ Hnil) in Hr. lia. }
       unfold store_entries.
-      rewrite (entries_eq (store l) lo (N.min hi off) max (CtxEmpty false) Hs Hne Hf ltac:(lia) ltac:(lia)
+      rewrite (entries_eq (store l) lo (N.min hi off) max (CtxEmpty false) Hs Hf ltac:(lia) ltac:(lia)
                  ltac:(rewrite Hq; reflexivity)).
       cbn [bind snd].
       destruct (range_of_spec (store l) lo (N.min hi off) Hs Hf ltac:(lia) ltac:(lia)) as (_ & Hlen & _).
